@@ -29,12 +29,12 @@ def torn_primary(e):
     return e.get("fskind") == "append" and e.get("cut", -1) >= 0 and str(e.get("fsfile", "")).startswith("data.")
 
 
-def run_crash(rep, scens, label, workers=None, collect=None, confirm=True):
+def run_crash(rep, scens, label, workers=None, collect=None, confirm=True, extra_rules=None):
     """-> (violations [(what, replay)], known {id: count}, summary); `collect` (a list) receives every crash case.
     A failing image is a verdict only if it fails again when its scenario is traced a second time, restricted to the call
     in flight (the replay object): the reconstruction of images from the strace log of a multi-threaded child is the one
     part of this engine whose result can depend on timing (DESIGN.md 0A.6); an unreproduced failure is counted and logged."""
-    viol, known, summ = _run_crash(rep, scens, label, workers, collect)
+    viol, known, summ = _run_crash(rep, scens, label, workers, collect, extra_rules)
     if not viol or not confirm:
         return viol, known, summ
     kept, dropped = [], 0
@@ -42,7 +42,7 @@ def run_crash(rep, scens, label, workers=None, collect=None, confirm=True):
     for what, obj in viol:
         key = json.dumps(obj["scenario"], sort_keys=True)
         if key not in again:
-            v2, _, _ = _run_crash(vlib.Report(rep.pid, replay=True), [obj["scenario"]], label + ".confirm", 1, None)
+            v2, _, _ = _run_crash(vlib.Report(rep.pid, replay=True), [obj["scenario"]], label + ".confirm", 1, None, extra_rules)
             again[key] = v2
         def sig(o):   # same rules at the same kind of file-system call on the same file (call numbers and cuts may shift between runs)
             c = o.get("crash") or {}
@@ -57,7 +57,7 @@ def run_crash(rep, scens, label, workers=None, collect=None, confirm=True):
     return kept, known, summ
 
 
-def _run_crash(rep, scens, label, workers=None, collect=None):
+def _run_crash(rep, scens, label, workers=None, collect=None, extra_rules=None):
     d = vlib.subdir("crash." + label)
     sf = os.path.join(d, "scen.ndjson")
     vlib.write_ndjson(sf, scens)
@@ -72,6 +72,9 @@ def _run_crash(rep, scens, label, workers=None, collect=None):
     bycont = {e["cont"]: (k, e) for k, e in cases.items() if "cont" in e}
     bad2, n2, _ = vlib.validate_traces("StoreTrace", "StoreTrace.cfg", cont) if cont else ([], 0, 0)
     bad3, n3, _ = vlib.validate_traces("FsckTrace", "FsckTrace.cfg", cont, extra_env={"VRULES": "C07"}) if cont else ([], 0, 0)
+    if extra_rules and cont:
+        b4, _, _ = vlib.validate_traces("FsckTrace", "FsckTrace.cfg", cont, extra_env={"VRULES": extra_rules})
+        bad3 = bad3 + [b for b in b4 if str(b["rule"]).startswith("F7")]
     rep.cov["evaluations"] += n1 + n2
     rep.cov["traces_validated_against_impl"] += len(cases)
     for k in ("crash_images", "fs_operations_traced", "recoveries_over_watchdog"):
@@ -425,6 +428,13 @@ def run(pid):
     rep.cov["samples"] = [scens[0]["ops"][:12] or scens[0].get("legacy")]
     if pid == "C10":
         upgrade_protocol_part(rep, pid)
+        # the COMPLETE upgrade (the image after its last file-system call) must also leave the freelist accounting exact
+        # (Fsck F7, the rule of C13): the pending freelist of the legacy store was applied, every entry once
+        fin = [dict(sc, finalOnly=True, maxImgs=0) for sc in scens]
+        v5, k5, _ = run_crash(rep, fin, "C10final", extra_rules="C13")
+        for what, obj in v5:
+            rep.violation("complete upgrade: " + what, obj)
+        rep.cov["complete_upgrades_judged_with_the_freelist_accounting_rule"] = len(fin)
     if pid == "C03":
         # collector-focused batch: histories that leave unreferenced index files and dead primary records behind, then one
         # index GC cycle with the free-file scan, one primary GC cycle and one index GC cycle without the scan - with EVERY
